@@ -41,6 +41,8 @@ def plans(world, info, seed, tier):
         if world["class"] in models.MIN_SEARCH_CLASSES and rng.random() < 0.4:
             sim["faults"] = [{"at": rng.randrange(0, 2), "kind": rng.choice(["interrupt", "time_limit_with_incumbent", "time_limit_no_incumbent"])}]
             sim["only_aux_faults"] = rng.random() < 0.7
+        if pol != "canonical" and rng.random() < 0.3:
+            sim["resolve"] = 1          # solve() a second time on the same object, then read the solution
         specs.append({"world": world, "sim": sim})
     w3 = mr.greedy_variant(world, rng)
     if w3 is not None:
